@@ -245,9 +245,22 @@ pub mod verif_valgate {
     pub fn allow_vals(m: u32) { unsafe { ALLOWED_VALS = m; } }
     #[inline(always)] pub fn gate_val(k: u32) { if unsafe { ALLOWED_VALS } & (1 << k) == 0 { panic!("value kind outside the set declared by the harness") } }
     #[inline(always)] pub fn gate_val_of<T: ValKind>(_: &T) { gate_val(T::K) }
+    pub static mut STUB_ELEMENT_TYPE: bool = false;
+    pub fn stub_element_type(on: bool) { unsafe { STUB_ELEMENT_TYPE = on; } }
+    pub fn element_type_stubbed() -> bool { unsafe { STUB_ELEMENT_TYPE } }
 }
 '''
     f.write_text(s)
+    # optional stub of the element-type computation of `Array::from` (a fold of Type::concat over
+    # as_type of every element): only harnesses that say so (C09 slicing, whose subject is which
+    # elements are selected) switch it on; the stored element type then is `any`.
+    g = root / 'src/variable/array.rs'
+    if g.exists():
+        t = g.read_text()
+        old = '        let elements = value.into();\n        let element_type = elements'
+        if old in t:
+            t = t.replace(old, '        let elements = value.into();\n        #[cfg(kani)]\n        if crate::variable::verif_valgate::element_type_stubbed() {\n            return Array { element_type: Type::Any, elements };\n        }\n        let element_type = elements', 1)
+            g.write_text(t)
     return n
 
 def apply_layout(root: pathlib.Path):
